@@ -79,7 +79,10 @@ def run(tier):
                    ["ioption 0 %d -1" % writegen.OPT["min"], "clear_error 0", "ioption 0 %d %d" % (writegen.OPT["min"], mx + 7)],
                    # options that do not exist, values that are not allowed, options of the reading side on a writer
                    ["ioption 0 50 1", "clear_error 0", "ioption 0 999 1", "clear_error 0", "ioption 0 5 7", "clear_error 0", "ioption 0 3 -1", "clear_error 0", "ioption 0 2 1", "clear_error 0", "ioption 0 %d 0" % writegen.OPT["max"]],
-                   ["ioption 0 5 0", "ioption 0 1001 3", "clear_error 0", "ioption 0 100 77"]][(i // 3) % 5]
+                   ["ioption 0 5 0", "ioption 0 1001 3", "clear_error 0", "ioption 0 100 77"],
+                   # checksum types the library does not know, as chunk and as overall type: the type in force stays what it was
+                   ["ioption 0 1 77", "clear_error 0", "ioption 0 0 4"],
+                   ["ioption 0 0 77", "clear_error 0", "ioption 0 1 260", "clear_error 0", "ioption 0 1 -1"]][(i // 3) % 7]
             lines += rej + ["clear_error 0"]
         pos = 0; cuts = []
         for k in seg:
